@@ -34,6 +34,10 @@ def pkStep (st : PkSt) : List String → PkSt × String
     match b.toNat?, t.toNat? with
     | some b, some t => ({ p := { batch := b, threshold := t }, s := {} }, "ok")
     | _, _ => (st, "bad-op")
+  | ["adjust", n] =>
+    match n.toNat? with
+    | some k => (st, ",".intercalate ((adjustId k).map toString))
+    | none => (st, "bad-op")
   | "ev" :: rest =>
     match pkEv rest with
     | some e =>
